@@ -232,6 +232,56 @@ def h_roundtrip(eng, focus, rtype, ws, kc, name_len=2, res_len=3):
                     eng.check(False, reader, note=f"{reader} fails on pdb2pqr's own output: {type(e).__name__} {e} line={out!r}")
 
 
+def h_atom_list(eng, n, ws, kc):
+    """io.print_biomolecule_atoms + print_pqr on a list of atoms whose chain ids are symbolic:
+    one line per atom in list order, serial = position, a TER between chain changes (dropped
+    again by --whitespace), read_pqr returns as many atoms as were written"""
+    from pdb2pqr import io, main, structures
+
+    atoms = []
+    for k in range(n):
+        a = structures.Atom(type_="ATOM" if k % 2 == 0 else "HETATM")
+        a.name, a.res_name, a.res_seq, a.ins_code = f"C{k}", "LIG", 5 + k, ""
+        if eng.symbolic:
+            a.chain_id = strs.sym_name(eng, f"chain{k}", 1, "ABC")
+        else:
+            a.chain_id = chr(eng.int(f"chain{k}_c0"))
+        a.x, a.y, a.z, a.ffcharge, a.radius = 1.0 + k, 2.0, 3.0, 0.25, 1.5
+        atoms.append(a)
+
+    class Args:
+        output_pqr = "out.pqr"
+        whitespace = ws
+
+    sink = []
+    with patched(*_patches(eng), *(rewrite.function_patches(io, "print_biomolecule_atoms") if eng.symbolic else []), (main, "open", lambda *a, **k: _File(sink))):
+        lines = io.print_biomolecule_atoms(atoms, kc)
+        main.print_pqr(Args, lines, "", None, False)
+        if strs.leaked(sink) or strs.leaked(lines):
+            raise core.Inconclusive("layout-string model bypassed")
+        atom_lines = [ln for ln in lines if not (isinstance(ln, str) and not isinstance(ln, strs.SymStr) and ln.startswith(("TER", "END")))]
+        ters = [ln for ln in lines if isinstance(ln, str) and not isinstance(ln, strs.SymStr) and ln.startswith("TER") and not ln.startswith("TER\nEND")]
+        eng.check(len(atom_lines) == n, "one-line-per-atom", note=f"{len(atom_lines)} lines for {n} atoms")
+        changes = 0
+        for k in range(1, n):
+            same = atoms[k].chain_id == atoms[k - 1].chain_id
+            if not bool(same):  # forks on the symbolic chain characters
+                changes += 1
+        eng.check(len(ters) == changes, "ter-between-chains", note=f"{len(ters)} TER records for {changes} chain changes")
+        for k, a in enumerate(atoms):
+            eng.check(a.serial == k + 1, "serial-is-position")
+        written = [s_ for s_ in sink if not (isinstance(s_, str) and not isinstance(s_, strs.SymStr) and s_.startswith(("TER", "END")))]
+        eng.check(len(written) == n, "all-atoms-written", note=f"{len(written)} atom lines written for {n} atoms")
+        names = []
+        for s_ in written:
+            w = s_.split()
+            names.append(str(w[2]))
+        eng.check(names == [a.name for a in atoms], "list-order-kept", note=f"written order {names}")
+        if ws:
+            got = io.read_pqr(iter(sink))
+            eng.check(len(got) == n, "read_pqr-count", note=f"read_pqr returned {len(got)} atoms for {n} written")
+
+
 FOCI_QUICK = [
     ("serial",),
     ("res_seq",),
@@ -260,13 +310,17 @@ def obligations(tier):
                     for nl, rl in lens:
                         tag = f"{'+'.join(focus)}-{rtype}-{'ws' if ws else 'fixed'}-{'kc' if kc else 'nokc'}-n{nl}r{rl}"
                         obs.append(Obligation(f"roundtrip-{tag}", h_roundtrip, dict(focus=list(focus), rtype=rtype, ws=ws, kc=kc, name_len=nl, res_len=rl), group="roundtrip", time_cap=1500, max_paths=100000))
+    for n in (2, 3):
+        for ws in (False, True):
+            for kc in (False, True):
+                obs.append(Obligation(f"atom-list-n{n}-{'ws' if ws else 'fixed'}-{'kc' if kc else 'nokc'}", h_atom_list, dict(n=n, ws=ws, kc=kc), group="atom-list", time_cap=1200))
     return obs
 
 
 def encoded():
     from pdb2pqr import io, main, structures
 
-    return [structures.Atom.get_common_string_rep, structures.Atom.get_pqr_string, structures.Atom.from_pqr_line.__func__, main.print_pqr, io.read_pqr]
+    return [structures.Atom.get_common_string_rep, structures.Atom.get_pqr_string, structures.Atom.from_pqr_line.__func__, main.print_pqr, io.read_pqr, io.print_biomolecule_atoms]
 
 
 META = dict(
@@ -285,7 +339,7 @@ META = dict(
     outside=[
         "names longer than 4 characters; characters outside the stated alphabets; blank chain with --keep-chain; non-finite numbers",
         "the header / REMARK lines (print_pqr drops them)",
-        "the renumbering of serials done by io.print_biomolecule_atoms (serial = position in the atom list)",
+        "serial numbers above the atom count (print_biomolecule_atoms renumbers: serial = position in the list; checked on 2-3 atom lists with symbolic chain ids)",
     ],
     assumptions=[
         "default layout is read back by the fixed PDB columns plus pdb2pqr's charge [55-62] and radius [63-69] columns; whitespace layout by the token order of docs/source/formats/pqr.rst and by pdb2pqr's own readers",
